@@ -367,7 +367,7 @@ def _run_loss(case, lose_at):
                     c['d'].cancel()
             elif k == 'conn_cb':
                 cb = {'hits': [], 'active': True}
-                cb['fn'] = lambda conn, reason, cb=cb: cb['hits'].append((conn, reason))
+                cb['fn'] = lambda conn, reason, cb=cb, rv=[None, True, 'done'][len(conn_cbs) % 3]: cb['hits'].append((conn, reason)) or rv   # the return value is ignored
                 rig.conn.notifyOnDisconnect(cb['fn'])
                 conn_cbs.append(cb)
             elif k == 'conn_cb_cancel':
@@ -404,7 +404,7 @@ def _run_loss(case, lose_at):
                 if proxies:
                     p = proxies[op[1] % len(proxies)]
                     cb = {'hits': [], 'active': True}
-                    cb['fn'] = lambda obj, reason, cb=cb: cb['hits'].append((obj, reason))
+                    cb['fn'] = lambda obj, reason, cb=cb, rv=[True, None, 1][len(p['cbs']) % 3]: cb['hits'].append((obj, reason)) or rv
                     p['obj'].notifyOnDisconnect(cb['fn'])
                     p['cbs'].append(cb)
             elif k == 'proxy_signal':
